@@ -16,7 +16,7 @@ LEVY = ['none', 'space-time', 'davie', 'foster']
 
 def random_config(rng, allow_cache0=False, allow_halfway=True):
     shape = rng.choice([(), (3,), (2, 3), (1, 2)])
-    cfg = dict(t0=rng.choice([0.0, -1.0, 0.25]), span=rng.choice([1.0, 2.0, 0.5]), size=shape,
+    cfg = dict(t0=rng.choice([0.0, -1.0, 0.25]), span=rng.choice([1.0, 2.0, 0.5, 1.0, 10.0, 37.5]), size=shape,
                levy=rng.choice(LEVY), entropy=rng.randrange(1 << 30),
                cache_size=rng.choice(([0] if allow_cache0 else []) + [1, 2, 3, 45, None]),
                dt=rng.choice([None, None, 0.05, 0.3]), tol=0.0, halfway=False)
@@ -46,6 +46,9 @@ def random_time(rng, cfg):
     r = rng.random()
     if r < 0.1:
         return rng.choice([t0, t1])
+    if r < 0.18:
+        lm = [x for x in (0.0, 0.5 * (t0 + t1), t0 + 0.25 * (t1 - t0), 1.0) if t0 <= x <= t1]
+        return resolved(cfg, rng.choice(lm))
     return resolved(cfg, min(max(rng.uniform(t0, t1), t0), t1))
 
 
@@ -75,8 +78,29 @@ def random_history(rng, cfg, n):
     return hist[:n]
 
 
+import signal
+
+
+class QueryTimeout(Exception):
+    pass
+
+
+def _alarm(signum, frame):
+    raise QueryTimeout("a single Brownian query did not return within 30 s")
+
+
 def query(bm, a, b, cfg):
-    """returns (W, U or None, A or None)"""
+    """returns (W, U or None, A or None); a query that does not return within 30 s raises QueryTimeout"""
+    old = signal.signal(signal.SIGALRM, _alarm)
+    signal.alarm(30)
+    try:
+        return _query(bm, a, b, cfg)
+    finally:
+        signal.alarm(0)
+        signal.signal(signal.SIGALRM, old)
+
+
+def _query(bm, a, b, cfg):
     has_U = cfg['levy'] != 'none'
     has_A = cfg['levy'] in ('davie', 'foster')
     if has_U and has_A:
@@ -164,9 +188,8 @@ def search_chen(rng, n_cfg, n_hist, n_triples, tol=1e-8, allow_cache0=False):
                 if maxabs(Wz) != 0 or (Uz is not None and maxabs(Uz) != 0):
                     fails.append(dict(kind='zero-length', config=_ser(cfg), history=hist, point=s))
                     break
-        except RecursionError:
-            stats.setdefault('recursion_errors', 0)
-            stats['recursion_errors'] += 1
+        except Exception as e:  # noqa: a valid query that raises (or does not return) is a failure of the object
+            fails.append(dict(kind='exception', config=_ser(cfg), error=f"{type(e).__name__}: {str(e)[:120]}"))
         if len(fails) >= 3:
             break
     return fails, stats
@@ -289,8 +312,10 @@ def gram_search(rng, n_cfg, n_hist, n_pairs, tol=1e-9, D=4096):
                         fails.append(dict(kind='gram', config=_ser(cfg), history=hist, I=I, J=J, got=got, expected=exp))
                         break
                 stats['max_coords'] = max(stats['max_coords'], len(oh.index))
-        except (RecursionError, OverflowError):
+        except OverflowError:
             stats['skipped'] = stats.get('skipped', 0) + 1
+        except Exception as e:  # noqa
+            fails.append(dict(kind='exception', config=_ser(cfg), error=f"{type(e).__name__}: {str(e)[:120]}"))
         if len(fails) >= 3:
             break
     return fails, stats
@@ -366,6 +391,17 @@ def requery_search(rng, n_cfg, n_hist):
                         break
                 else:
                     seen[(a, b)] = (k, ans)
+                if cfg['tol'] > 0 and rng.random() < 0.3 and b - a > 4 * cfg['tol']:
+                    # an off-grid interval, a near-coincident neighbour (same end points after rounding), the interval again
+                    a2 = a + 0.31 * cfg['tol']
+                    first = query(bm, a2, b, cfg)
+                    query(bm, *rng.choice(hist), cfg)                     # something unrelated in between
+                    query(bm, a2 + 0.07 * cfg['tol'], b, cfg)             # the near-coincident neighbour
+                    st['requeries'] += 1
+                    if not _eq(query(bm, a2, b, cfg), first):
+                        bad = dict(kind='requery', config=_ser(cfg), history=hist[:k + 1], interval=[a2, b],
+                                   note='asked again right after a neighbour that has the same end points after rounding')
+                        break
                 if rng.random() < 0.25 and seen:
                     q = rng.choice(list(seen))
                     st['requeries'] += 1
@@ -377,8 +413,8 @@ def requery_search(rng, n_cfg, n_hist):
             st['inferred_dt'] += int(cfg['dt'] is None and not cfg['halfway'])
             if bad:
                 fails.append(bad)
-        except RecursionError:
-            st['recursion_errors'] = st.get('recursion_errors', 0) + 1
+        except Exception as e:  # noqa
+            fails.append(dict(kind='exception', config=_ser(cfg), error=f"{type(e).__name__}: {str(e)[:120]}"))
         if len(fails) >= 2:
             break
     return fails, st
@@ -421,13 +457,15 @@ def reproducibility_search(rng, n_cfg, n_hist):
         if not _eq(query(c1, q[0], q[1], hcfg), query(c2, q[0], q[1], hcfg)):
             fails.append(dict(kind='dyadic-history-dependence', config=_ser(hcfg), history1=h1, history2=h2, query=list(q)))
         # BrownianTree wrapper
-        w0 = torch.zeros(2, 3, dtype=torch.float64)
+        w0 = torch.full((2, 3), 1.25, dtype=torch.float64)
         ent = rng.randrange(1 << 30)
-        tr1 = BrownianTree(t0=0.0, w0=w0, t1=1.0, entropy=ent, tol=1e-4)
-        tr2 = BrownianTree(t0=0.0, w0=w0, t1=1.0, entropy=ent, tol=1e-4)
+        tr1 = BrownianTree(t0=0.0, w0=w0.clone(), t1=1.0, entropy=ent, tol=1e-4)
+        tr2 = BrownianTree(t0=0.0, w0=w0.clone(), t1=1.0, entropy=ent, tol=1e-4)
         for _ in range(rng.randrange(0, 12)):
             a, b = sorted((round(rng.random(), 4), round(rng.random(), 4)))
             tr1(a, b)
+            if rng.random() < 0.5:
+                tr1(rng.choice([1.0, 0.5, 0.25, 0.75, round(rng.random(), 4)]))  # point evaluation (adds w0)
         a, b = sorted((round(rng.random(), 4), round(rng.random(), 4)))
         st['dyadic_pairs'] += 1
         if not torch.equal(tr1(a, b), tr2(a, b)):
@@ -484,17 +522,32 @@ def robustness_search(rng, n_cfg, n_long):
             a = rng.uniform(t0, t1)
             adversarial.append((a, min(t1, a + rng.choice([1e-9, 1e-12, 1e-15, 3e-17]))))
         adversarial += [(t1 - 4e-14, t1), (t0, t0 + 1e-13), (t0, t0), (t1, t1)]
+        if cfg['tol'] > 0:
+            tol = cfg['tol']
+            for _ in range(25):
+                gp = resolved(cfg, rng.uniform(t0 + 2 * tol, t1 - 2 * tol))
+                lo = gp - rng.uniform(0.05, 0.49) * tol
+                hi = gp + rng.uniform(0.05, 0.49) * tol
+                adversarial += [(lo, hi), (gp, hi), (lo, gp), (gp - 0.5 * tol, gp + 0.5 * tol)]
         r = run(cfg, hist + adversarial, 'random+adversarial', depth=(st['configs'] < 2))
         st['configs'] += 1
         if r:
             fails.append(r)
     # constructor corner cases
     for kw in [dict(tol=1e-3, dt=1e-5), dict(tol=1e-2, dt=1e-3, cache_size=3), dict(cache_size=0, dt=0.1), dict(cache_size=0),
-               dict(cache_size=1), dict(halfway=True, tol=1e-3, dt=None), dict(halfway=True, tol=1e-6, dt=None)]:
+               dict(cache_size=1), dict(halfway=True, tol=1e-3, dt=None), dict(halfway=True, tol=1e-6, dt=None),
+               dict(halfway=True, tol=1e-4, dt=None, subtol=True), dict(tol=1e-3, subtol=True)]:
         cfg = dict(t0=0.0, span=1.0, size=(2,), levy='space-time', entropy=7, cache_size=45, dt=None, tol=0.0, halfway=False)
+        subtol = kw.pop('subtol', False)
         cfg.update(kw)
         n = 130
         hist = [(i / n, (i + 1) / n) for i in range(n)]
+        if subtol:
+            tol = cfg['tol']
+            hist = hist[:20]
+            for j in range(40):
+                gp = round(0.1 + 0.02 * j, 4)
+                hist += [(gp - 0.4 * tol, gp + 0.4 * tol), (gp - 0.3 * tol, gp + 0.45 * tol), (gp, gp + 0.45 * tol)]
         r = run(cfg, hist + list(reversed(hist[-30:])), f'constructor corner {kw}', depth=True)
         st['configs'] += 1
         if r:
